@@ -13,6 +13,25 @@ impl Binder {
         }
         let cols = self.bind_table_columns(&insert.table_name, &insert.columns)?;
         let source = self.bind_query(*source)?.0;
+        // every value of the source goes to exactly one target column: a value without a
+        // target (more values than columns, a column named twice) is never dropped, and the
+        // executor is not given fewer values than targets
+        let targets = self.egraph[cols].nodes[0].as_list().to_vec();
+        let values = self.schema(source).len();
+        if values != targets.len() {
+            return Err(ErrorKind::ColumnCountMismatch(
+                insert.table_name.to_string(),
+                targets.len(),
+                values,
+            )
+            .with_spanned(&insert.table_name));
+        }
+        if let Some((_, dup)) = (targets.iter().enumerate())
+            .zip(&insert.columns)
+            .find(|((i, id), _)| targets[..*i].contains(id))
+        {
+            return Err(ErrorKind::ColumnExists(dup.value.to_lowercase()).with_span(dup.span));
+        }
         let id = self.egraph.add(Node::Insert([table, cols, source]));
         Ok(id)
     }
